@@ -11,15 +11,15 @@ from mc import core, grammar, values
 
 ID = 'C02'
 META = {
-    'rule': "full product of 41 data representatives (16 kinds incl. integral floats, digit / 'true' / ISO-date strings, str "
-            "subclass instances, empty containers, lists of pairs) x 36 target types (all scalar kinds, enums, literals, scalar "
-            "subclasses, every container kind, struct literal, struct-only and tuple-layout dataclasses, Optional) x 16 embedding "
-            "contexts (thorough: all 256 ordered pairs of contexts); a pair forbidden by the statement must raise ConvertError, in a "
+    'rule': "full product of 45 data representatives (18 kinds incl. integral floats, digit / 'true' / ISO-date strings, str "
+            "subclass instances, empty containers, lists of pairs) x 44 target types (all scalar kinds, numpy scalar types, enums, literals, scalar "
+            "subclasses, every container kind, struct literal, struct-only and tuple-layout dataclasses, Optional) x 19 embedding "
+            "contexts (thorough: all ordered pairs of contexts), through five call modes (plain, custom={int: stock}, from_yaml, from_json, dataclass constructor); a pair forbidden by the statement must raise ConvertError, in a "
             "union context the datum must come back as itself through its own-kind member, and the lossless widenings int->float->complex "
             "must succeed with the exact widened value. Non-trivial: forbidden or widening cell in a non-top context; key = (value kind, target, context, verdict).",
     'assumptions': ["bool->number and int 0/1->bool cells are UNSPEC (Python bool is an int); str -> Decimal/Fraction/date/time/datetime/Pattern/path "
                     "are the documented serialised forms, not coercions"],
-    'bounds': {'quick': '41 x 40 x (14 + 31 nested) cells', 'thorough': '41 x 40 x (14 + 196) cells'},
+    'bounds': {'quick': '45 x 44 x (19 + nested) cells x call modes', 'thorough': '45 x 44 x (19 + all ordered pairs) cells x call modes'},
 }
 
 # ------------------------------------------------------------------ data representatives
